@@ -38,6 +38,7 @@ REVIEWED = {
     # --- time of day arithmetic
     'TimeItem::calculate/chrono-date-arith/add': (1, 'the instant is today\'s date plus at most one day per evaluated line; chrono\'s range is +-262000 years (bounded line count, sane clock)', []),
     'TimeItem::calculate/chrono-date-arith/sub': (2, 'as above', []),
+    'date_time_rules::time_with_timezone/chrono-naive_local/naive_local': (1, 'naive_local() of east(offset*60).from_utc_datetime(time): the instant of a time token is today\'s date at some time of day (literals are anchored on Utc::today(), clock arithmetic moves it by less than a day per operation) and |offset| < 1 day (C11/Z3): far inside chrono\'s range (sane clock)', []),
     # --- unit walk on the configured tables
     'DynamicTypeItem::calculate_unit/overflow/Sub:usize': (1, 'search_index - 1 inside the downward walk: search_index >= target.index >= 1 for the configured families', ['unit-indices-ge-1']),
     'DynamicTypeItem::calculate_unit/overflow/Add:usize': (2, 'source.index + 1 and search_index + 1 in the upward walk are bounded by the largest configured index + 1', ['unit-indices-ge-1']),
